@@ -152,9 +152,13 @@ def state_case(rep, spec, index):
         cond_ = 1 + 1 / (1 - y_ref) + 1 / (1 - x.p) + 1 / y_ref + 1 / x.p + 1 / min(xm.p, 1 - xm.p)
         rep.check("separation-factor helper with a mole-fraction feed: still (y1/y2)/(x1/x2) in ONE basis", abs(float(sfm) - sf_ref),
                   (64 * EPS * cond_ + 8 * prec * (1 + 1 / min(y_ref, 1 - y_ref))) * abs(sf_ref), dict(case, feed="molar"), {"helper": float(sfm), "ref": sf_ref})
-    st, curve2 = _guard(lambda: pv.ideal_diffusion_curve(T, [xm, x], tp, pp, prec, model))
+    # mixed-basis curves in every order (round 9: a shortcut keyed on the basis of the FIRST point only)
+    mixed = {0: [xm, x], 1: [x, xm], 2: [x, xm, x, xm]}[index % 3 if index % 2 else 0]
+    basis_label = "+".join("molar" if c is xm else "weight" for c in mixed)
+    rep.count("mixed_basis_curve:" + basis_label)
+    st, curve2 = _guard(lambda: pv.ideal_diffusion_curve(T, mixed, tp, pp, prec, model))
     if st == "ok":
-        curve_metrics(rep, dict(case, curve_basis="molar+weight"), curve2)
+        curve_metrics(rep, dict(case, curve_basis=basis_label), curve2)
         if index % 3 == 0:
             # the user corrects a row of the returned curve in place (a mistyped flux) and appends a point: the derived
             # quantities of that same object must follow its fluxes
@@ -167,7 +171,7 @@ def state_case(rep, spec, index):
                     curve2.partial_fluxes.append((f0[0] * b, f0[1] * a))
                     curve2.feed_compositions.append(curve2.feed_compositions[0])
                     curve2.permeances.append(curve2.permeances[0])
-                ce = dict(case, curve_basis="molar+weight", flux_rows_edited_in_place=[a, b], point_appended=index % 2 == 0)
+                ce = dict(case, curve_basis=basis_label, flux_rows_edited_in_place=[a, b], point_appended=index % 2 == 0)
                 try:
                     curve_metrics(rep, ce, curve2)
                     rep.require("derived quantities of a curve can still be read after its flux rows were edited in place", True, ce)
